@@ -184,8 +184,14 @@ func handleOpen(h *Handler, iq openIQ, e xmlstream.Encoder) error {
 	expect, ok := l.expected[key]
 	if ok {
 		delete(l.expected, key)
-		expect.c <- conn
-		return nil
+		select {
+		case expect.c <- conn:
+			return nil
+		case <-expect.done:
+			// The call to Expect has given up in the meantime (its context was
+			// canceled or it was replaced by a newer call); nobody will ever
+			// receive from the channel, so treat the session like any other.
+		}
 	}
 	l.c <- conn
 	return nil
